@@ -161,4 +161,39 @@ example : Gen.RadioBufferFn.RadioBuffer.as_mut_for_read ⟨[9, 8, 7], 4⟩ = non
 example : (0 : Int) ≤ (⟨[9, 8, 7], 2⟩ : Gen.RadioBufferFn.RadioBuffer).pos
     ∧ (⟨[9, 8, 7], 2⟩ : Gen.RadioBufferFn.RadioBuffer).pos + (([1] : List Int).length : Int) ≤ 18446744073709551615 := by decide
 
+/-- what `adapterDeliver` answers, as the generated side sees it (`none` = a panic) -/
+def deliveredOf : Outcome Bytes → Option Bytes
+  | .ok b => some b
+  | _ => none
+
+/-- the hand-over of the receive path composed from the REGENERATED `RadioBuffer` methods — the driver has filled the
+array handed out by `as_mut()` (content `filled`) and answered `Ok(n)`, the device calls `set_pos(n)`, the MAC reads
+`as_mut_for_read()` — is the model's `adapterDeliver` on the model's `Res`, the slice panic for `n > N` included.
+(The glue in `lorawan_radio.rs` / `async_device` that makes these three calls is not translated: tied by the
+correspondence.) -/
+theorem tieA_adapter_handover (g : Gen.RadioBufferFn.RadioBuffer) (filled : List Int) (n : Int) (hn : 0 ≤ n) :
+    (Gen.RadioBufferFn.RadioBuffer.as_mut_for_read
+        (Gen.RadioBufferFn.RadioBuffer.set_pos { (Gen.RadioBufferFn.RadioBuffer.as_mut g).2 with packet := filled } n)).map
+        (fun o => bytesOf o.1)
+      = deliveredOf (adapterDeliver (bufOf g) ⟨.ok n.toNat, bytesOf filled⟩) := by
+  have h1 := (tieA_radio_buffer_as_mut g).2
+  have h2 := tieA_radio_buffer_set_pos { g with packet := filled } n
+  have hp : 0 ≤ (Gen.RadioBufferFn.RadioBuffer.set_pos { g with packet := filled } n).pos := by
+    have := congrArg RadioBuffer.pos h2
+    obtain ⟨p, q⟩ := g
+    simp [Gen.RadioBufferFn.RadioBuffer.set_pos]; exact hn
+  have h3 := tieA_radio_buffer_as_mut_for_read _ hp
+  rw [h1]
+  have h4 := congrArg (Option.map Prod.fst) h3
+  simp only [Option.map_map, Function.comp_def] at h4
+  rw [h4, h2]
+  simp only [adapterDeliver, bufOf, RadioBuffer.setPos]
+  cases hc : RadioBuffer.asMutForRead { packet := bytesOf filled, pos := n.toNat } <;> simp [deliveredOf, hc]
+
+/-- non-vacuity: 3 bytes delivered into a 4-byte array are handed to the MAC; `Ok(5)` would panic -/
+example : (Gen.RadioBufferFn.RadioBuffer.as_mut_for_read (Gen.RadioBufferFn.RadioBuffer.set_pos
+    { (Gen.RadioBufferFn.RadioBuffer.as_mut ⟨[0, 0, 0, 0], 0⟩).2 with packet := [7, 8, 9, 0] } 3)).map (·.1) = some [7, 8, 9] := by decide
+example : Gen.RadioBufferFn.RadioBuffer.as_mut_for_read (Gen.RadioBufferFn.RadioBuffer.set_pos
+    { (Gen.RadioBufferFn.RadioBuffer.as_mut ⟨[0, 0, 0, 0], 0⟩).2 with packet := [7, 8, 9, 0] } 5) = none := by decide
+
 end C18
